@@ -167,7 +167,7 @@ NodeInit(c) ==
   /\ obs = ObsInit
 
 \* the same as a next-state assignment (a new run starts in a recorded trace)
-NodeReset(c) ==
+NodeResetH(c, hf) ==
   /\ cfg' = c
   /\ parts' = <<>>
   /\ pay' = [h \in Hashes |-> [iss |-> 0, run |-> 0]]
@@ -180,7 +180,8 @@ NodeReset(c) ==
   /\ rets' = {}
   /\ last' = [t |-> "reset"]
   /\ obs' = ObsInit
-  /\ htlc' = <<>>
+  /\ htlc' = hf
+NodeReset(c) == NodeResetH(c, <<>>)
 
 \* Does HTLC record r (arriving) trigger a rejection of the set it joins?
 \* conflicting invoice/amount, expiry too low, declared total too low.
